@@ -888,36 +888,47 @@ func checkSplitURL(c *Ctx, pk *packages.Package) {
 // codescanLoopExits: the reviewed early exits of the scanner's loops over struct fields, interface
 // methods, packages and spec collections.
 var codescanLoopExits = map[string]string{
-	"codescan.parameterBuilder.buildFromStruct › loop over types.Struct.NumFields #1 › continue #1":             "embedded struct: its fields were just collected by the recursive buildFromType call",
-	"codescan.parameterBuilder.buildFromStruct › loop over types.Struct.NumFields #1 › continue #2":             "unexported field: not part of the parameter set",
-	"codescan.parameterBuilder.buildFromStruct › loop over types.Struct.NumFields #1 › continue #3":             "no syntax found for the field (declared in a file that was not parsed): nothing to read annotations from (logged)",
-	"codescan.parameterBuilder.buildFromStruct › loop over types.Struct.NumFields #1 › continue #4":             "field annotated swagger:ignore",
-	"codescan.parameterBuilder.buildFromStruct › loop over types.Struct.NumFields #1 › continue #5":             "field tagged json:\"-\"",
-	"codescan.responseBuilder.buildFromStruct › loop over types.Struct.NumFields #1 › continue #1":              "embedded struct: its fields were just collected by the recursive buildFromType call",
-	"codescan.responseBuilder.buildFromStruct › loop over types.Struct.NumFields #1 › continue #2":              "unexported field: not part of the response header set",
-	"codescan.responseBuilder.buildFromStruct › loop over types.Struct.NumFields #1 › continue #3":              "no syntax found for the field (declared in a file that was not parsed): nothing to read annotations from (logged)",
-	"codescan.responseBuilder.buildFromStruct › loop over types.Struct.NumFields #1 › continue #4":              "field annotated swagger:ignore",
-	"codescan.responseBuilder.buildFromStruct › loop over types.Struct.NumFields #1 › continue #5":              "field tagged json:\"-\"",
-	"codescan.parameterBuilder.buildFromStruct › loop over spec.Parameter #1 › break #1":                        "re-ordering pass: the parameter named k was found and removed from its old position",
-	"codescan.schemaBuilder.buildFromStruct › loop over types.Struct.NumFields #1 › continue #1":                "first pass looks at embedded fields only",
-	"codescan.schemaBuilder.buildFromStruct › loop over types.Struct.NumFields #1 › continue #2":                "no syntax found for the embedded field (logged)",
-	"codescan.schemaBuilder.buildFromStruct › loop over types.Struct.NumFields #1 › continue #3":                "embedded field annotated swagger:ignore",
-	"codescan.schemaBuilder.buildFromStruct › loop over types.Struct.NumFields #1 › continue #4":                "embedded field tagged json:\"-\"",
-	"codescan.schemaBuilder.buildFromStruct › loop over types.Struct.NumFields #1 › continue #5":                "embedded field named by its json tag: described as a property by the second pass",
-	"codescan.schemaBuilder.buildFromStruct › loop over types.Struct.NumFields #1 › continue #6":                "embedded field without swagger:allOf: its properties were just inlined by buildEmbedded",
-	"codescan.schemaBuilder.buildFromStruct › loop over types.Struct.NumFields #2 › continue #1":                "second pass: embedded fields without a tag name were handled by the first pass",
-	"codescan.schemaBuilder.buildFromStruct › loop over types.Struct.NumFields #2 › continue #2":                "unexported field: encoding/json does not write it",
-	"codescan.schemaBuilder.buildFromStruct › loop over types.Struct.NumFields #2 › continue #3":                "no syntax found for the field (logged)",
-	"codescan.schemaBuilder.buildFromStruct › loop over types.Struct.NumFields #2 › continue #4":                "field annotated swagger:ignore",
-	"codescan.schemaBuilder.buildFromStruct › loop over types.Struct.NumFields #2 › continue #5":                "field tagged json:\"-\" (the promoted property of the same Go name, if any, was removed just above)",
-	"codescan.schemaBuilder.buildFromInterface › loop over types.Interface.NumEmbeddeds #1 › continue #1":       "no syntax found for the embedded interface (logged)",
-	"codescan.schemaBuilder.buildFromInterface › loop over types.Interface.NumEmbeddeds #1 › continue #2":       "embedded interface annotated swagger:ignore",
-	"codescan.schemaBuilder.buildFromInterface › loop over types.Interface.NumEmbeddeds #1 › continue #3":       "embedded interface without swagger:allOf: its methods were just inlined by buildEmbedded",
-	"codescan.schemaBuilder.buildFromInterface › loop over types.Interface.NumExplicitMethods #1 › continue #1": "unexported method",
-	"codescan.schemaBuilder.buildFromInterface › loop over types.Interface.NumExplicitMethods #1 › continue #2": "not a method signature",
-	"codescan.schemaBuilder.buildFromInterface › loop over types.Interface.NumExplicitMethods #1 › continue #3": "method with parameters: not a getter, not a property",
-	"codescan.schemaBuilder.buildFromInterface › loop over types.Interface.NumExplicitMethods #1 › continue #4": "method without exactly one result: not a getter",
-	"codescan.schemaBuilder.buildFromInterface › loop over types.Interface.NumExplicitMethods #1 › continue #5": "no syntax found for the method (logged)",
-	"codescan.schemaBuilder.buildFromInterface › loop over types.Interface.NumExplicitMethods #1 › continue #6": "method annotated swagger:ignore",
-	"codescan.typeIndex.build › loop over packages.Package #1 › continue #1":                                    "package already registered and processed",
+	"codescan.parameterBuilder.buildFromStruct › loop over types.Struct.NumFields #1 › continue #1":                "‹*types.Var›.Embedded() ⇒ embedded struct: its fields were just collected by the recursive buildFromType call",
+	"codescan.parameterBuilder.buildFromStruct › loop over types.Struct.NumFields #1 › continue #2":                "!‹*types.Var›.Exported() ⇒ unexported field: not part of the parameter set",
+	"codescan.parameterBuilder.buildFromStruct › loop over types.Struct.NumFields #1 › continue #3":                "‹*ast.Field› == nil ⇒ no syntax found for the field (declared in a file that was not parsed): nothing to read annotations from (logged)",
+	"codescan.parameterBuilder.buildFromStruct › loop over types.Struct.NumFields #1 › continue #4":                "ignored(‹*ast.Field›.Doc) ⇒ field annotated swagger:ignore",
+	"codescan.parameterBuilder.buildFromStruct › loop over types.Struct.NumFields #1 › continue #5":                "‹bool› ⇒ field tagged json:\"-\"",
+	"codescan.responseBuilder.buildFromStruct › loop over types.Struct.NumFields #1 › continue #1":                 "‹*types.Var›.Embedded() ⇒ embedded struct: its fields were just collected by the recursive buildFromType call",
+	"codescan.responseBuilder.buildFromStruct › loop over types.Struct.NumFields #1 › continue #2":                 "‹*types.Var›.Anonymous() ⇒ unexported field: not part of the response header set",
+	"codescan.responseBuilder.buildFromStruct › loop over types.Struct.NumFields #1 › continue #3":                 "‹*ast.Field› == nil ⇒ no syntax found for the field (declared in a file that was not parsed): nothing to read annotations from (logged)",
+	"codescan.responseBuilder.buildFromStruct › loop over types.Struct.NumFields #1 › continue #4":                 "ignored(‹*ast.Field›.Doc) ⇒ field annotated swagger:ignore",
+	"codescan.responseBuilder.buildFromStruct › loop over types.Struct.NumFields #1 › continue #5":                 "‹bool› ⇒ field tagged json:\"-\"",
+	"codescan.parameterBuilder.buildFromStruct › loop over spec.Parameter #1 › break #1":                           "‹spec.Parameter›.Name == ‹string› ⇒ re-ordering pass: the parameter named k was found and removed from its old position",
+	"codescan.schemaBuilder.buildFromStruct › loop over types.Struct.NumFields #1 › continue #1":                   "!‹*types.Var›.Anonymous() ⇒ first pass looks at embedded fields only",
+	"codescan.schemaBuilder.buildFromStruct › loop over types.Struct.NumFields #1 › continue #2":                   "‹*ast.Field› == nil ⇒ no syntax found for the embedded field (logged)",
+	"codescan.schemaBuilder.buildFromStruct › loop over types.Struct.NumFields #1 › continue #3":                   "ignored(‹*ast.Field›.Doc) ⇒ embedded field annotated swagger:ignore",
+	"codescan.schemaBuilder.buildFromStruct › loop over types.Struct.NumFields #1 › continue #4":                   "‹bool› ⇒ embedded field tagged json:\"-\"",
+	"codescan.schemaBuilder.buildFromStruct › loop over types.Struct.NumFields #1 › continue #5":                   "‹string› != \"\" ⇒ embedded field named by its json tag: described as a property by the second pass",
+	"codescan.schemaBuilder.buildFromStruct › loop over types.Struct.NumFields #1 › continue #6":                   "!allOfMember(‹*ast.Field›.Doc) ⇒ embedded field without swagger:allOf: its properties were just inlined by buildEmbedded",
+	"codescan.schemaBuilder.buildFromStruct › loop over types.Struct.NumFields #2 › continue #1":                   "‹*types.Var›.Embedded() && jsonTagName(‹string›) == \"\" ⇒ second pass: embedded fields without a tag name were handled by the first pass",
+	"codescan.schemaBuilder.buildFromStruct › loop over types.Struct.NumFields #2 › continue #2":                   "!‹*types.Var›.Exported() ⇒ unexported field: encoding/json does not write it",
+	"codescan.schemaBuilder.buildFromStruct › loop over types.Struct.NumFields #2 › continue #3":                   "‹*ast.Field› == nil ⇒ no syntax found for the field (logged)",
+	"codescan.schemaBuilder.buildFromStruct › loop over types.Struct.NumFields #2 › continue #4":                   "ignored(‹*ast.Field›.Doc) ⇒ field annotated swagger:ignore",
+	"codescan.schemaBuilder.buildFromStruct › loop over types.Struct.NumFields #2 › continue #5":                   "‹bool› ⇒ field tagged json:\"-\" (the promoted property of the same Go name, if any, was removed just above)",
+	"codescan.schemaBuilder.buildFromInterface › loop over types.Interface.NumEmbeddeds #1 › continue #1":          "‹*ast.Field› == nil ⇒ no syntax found for the embedded interface (logged)",
+	"codescan.schemaBuilder.buildFromInterface › loop over types.Interface.NumEmbeddeds #1 › continue #2":          "ignored(‹*ast.Field›.Doc) ⇒ embedded interface annotated swagger:ignore",
+	"codescan.schemaBuilder.buildFromInterface › loop over types.Interface.NumEmbeddeds #1 › continue #3":          "!allOfMember(‹*ast.Field›.Doc) ⇒ embedded interface without swagger:allOf: its methods were just inlined by buildEmbedded",
+	"codescan.schemaBuilder.buildFromInterface › loop over types.Interface.NumExplicitMethods #1 › continue #1":    "!‹*types.Func›.Exported() ⇒ unexported method",
+	"codescan.schemaBuilder.buildFromInterface › loop over types.Interface.NumExplicitMethods #1 › continue #2":    "!‹bool› ⇒ not a method signature",
+	"codescan.schemaBuilder.buildFromInterface › loop over types.Interface.NumExplicitMethods #1 › continue #3":    "‹*types.Signature›.Params().Len() > 0 ⇒ method with parameters: not a getter, not a property",
+	"codescan.schemaBuilder.buildFromInterface › loop over types.Interface.NumExplicitMethods #1 › continue #4":    "‹*types.Signature›.Results() == nil || ‹*types.Signature›.Results().Len() != 1 ⇒ method without exactly one result: not a getter",
+	"codescan.schemaBuilder.buildFromInterface › loop over types.Interface.NumExplicitMethods #1 › continue #5":    "‹*ast.Field› == nil ⇒ no syntax found for the method (logged)",
+	"codescan.schemaBuilder.buildFromInterface › loop over types.Interface.NumExplicitMethods #1 › continue #6":    "ignored(‹*ast.Field›.Doc) ⇒ method annotated swagger:ignore",
+	"codescan.typeIndex.build › loop over packages.Package #1 › continue #1":                                       "‹bool› ⇒ package already registered and processed",
+	"codescan.collectOperationsFromInput › loop over spec.PathItem #1 › conditional store #1":                      "‹spec.PathItem›.Get != nil ⇒ one arm per HTTP method of a path item (GET): absent methods have no operation",
+	"codescan.collectOperationsFromInput › loop over spec.PathItem #1 › conditional store #2":                      "‹spec.PathItem›.Post != nil ⇒ one arm per HTTP method of a path item (POST): absent methods have no operation",
+	"codescan.collectOperationsFromInput › loop over spec.PathItem #1 › conditional store #3":                      "‹spec.PathItem›.Put != nil ⇒ one arm per HTTP method of a path item (PUT): absent methods have no operation",
+	"codescan.collectOperationsFromInput › loop over spec.PathItem #1 › conditional store #4":                      "‹spec.PathItem›.Patch != nil ⇒ one arm per HTTP method of a path item (PATCH): absent methods have no operation",
+	"codescan.collectOperationsFromInput › loop over spec.PathItem #1 › conditional store #5":                      "‹spec.PathItem›.Delete != nil ⇒ one arm per HTTP method of a path item (DELETE): absent methods have no operation",
+	"codescan.collectOperationsFromInput › loop over spec.PathItem #1 › conditional store #6":                      "‹spec.PathItem›.Head != nil ⇒ one arm per HTTP method of a path item (HEAD): absent methods have no operation",
+	"codescan.collectOperationsFromInput › loop over spec.PathItem #1 › conditional store #7":                      "‹spec.PathItem›.Options != nil ⇒ one arm per HTTP method of a path item (OPTIONS): absent methods have no operation",
+	"codescan.parameterBuilder.buildFromStruct › loop over spec.Parameter #1 › conditional store #1":               "‹spec.Parameter›.Name == ‹string› ⇒ re-ordering pass: removes the parameter from its old position before it is appended at the new one",
+	"codescan.responseBuilder.buildFromStruct › loop over types.Struct.NumFields #1 › conditional store #1":        "‹string› != \"body\" ⇒ fields with `in: body` describe the response schema, the others are headers",
+	"codescan.responseBuilder.buildFromStruct › loop over types.Struct.NumFields #1 › conditional store #2":        "‹string› != \"body\" ⇒ same arm: the header is stored",
+	"codescan.schemaBuilder.buildFromInterface › loop over types.Interface.NumEmbeddeds #1 › conditional store #1": "!allOfMember(‹*ast.Field›.Doc) ⇒ embedded interface without swagger:allOf: inlined as an allOf member built from its methods",
 }
